@@ -64,8 +64,16 @@ fn shape(v: &Value) -> V {
 }
 
 fn any_scalar() -> V {
-    // Int or Float: enough to tell slots apart without a four-way split on every slot
-    if kani::any() { V::I(kani::any()) } else { V::F(kani::any()) }
+    // Int or Float: enough to tell slots apart without a four-way split on every slot.  The one
+    // value excluded is the marker constant of the stop device (see `not_mark`).
+    if kani::any() { V::I(not_mark(kani::any())) } else { V::F(kani::any()) }
+}
+
+/// Any `i64` but the marker: the harness recognises "the instruction completed" by the marker the
+/// stop device pushes afterwards, so no symbolic slot or operand may look like it.
+fn not_mark(x: VmInt) -> VmInt {
+    kani::assume(x != MARK);
+    x
 }
 
 fn function(instructions: Vec<Instruction>) -> GcPtr<BytecodeFunction> {
@@ -237,7 +245,9 @@ fn check_step(i: Instruction, slots: &[ValueRepr], ups: (Option<V>, Option<V>), 
             match out {
                 Outcome::Failed { message, frame, len } => {
                     assert!(message, "instruction must fail with Error::Message");
-                    assert!(len == 0 || frame[len - 1] != V::I(MARK) || len as i32 <= pre_len, "must not complete");
+                    // had the instruction completed, the stop device would have pushed its marker
+                    // on top before stopping; no other slot can hold that value (`not_mark`)
+                    assert!(len <= 5 && (len == 0 || frame[len - 1] != V::I(MARK)), "must fail, not complete");
                 }
                 _ => assert!(false, "instruction must fail with an error value"),
             }
@@ -248,9 +258,9 @@ fn check_step(i: Instruction, slots: &[ValueRepr], ups: (Option<V>, Option<V>), 
                 assert!(e.1 as i32 - pre_len == i.adjust(), "Instruction::adjust disagrees with the interpreter");
             }
             check_frame(out, &e);
-            kani::cover!(true, "step completed");
         }
     }
+    kani::cover!(true, "step checked");
 }
 
 fn pad(v: &[V]) -> ([V; 5], usize) {
@@ -472,7 +482,7 @@ macro_rules! int_arith {
     ($name: ident, $instr: ident, $op: ident) => {
         step_harness!($name, {
             let s = any_scalar();
-            let (a, b): (VmInt, VmInt) = (kani::any(), kani::any());
+            let (a, b): (VmInt, VmInt) = (not_mark(kani::any()), not_mark(kani::any()));
             let exp = match a.$op(b) {
                 Some(r) => Expect { frame: Some(pad(&[s, V::I(r)])) },
                 None => Expect { frame: None },
@@ -492,12 +502,13 @@ int_arith!(c01_step_DivideInt, DivideInt, checked_div);
 // differently written one is a SAT-hard equivalence (measured on a seeded change that replaced
 // `checked_div` by a zero test plus `wrapping_div`: out of memory, then no verdict in 15 min); with the
 // divisor fixed the query is easy, and the three divisors are the three behaviours of the instruction:
-// -1 (overflows for the minimum), 0 (error value), and an ordinary one.
+// -1 (overflows for the minimum), 0 (error value), and an ordinary one (2: division by other
+// constants, e.g. 7, is itself a hard multiplier-style circuit -- 870 s measured).
 macro_rules! int_div_by {
     ($name: ident, $d: expr) => {
         step_harness!($name, {
             let s = any_scalar();
-            let a: VmInt = kani::any();
+            let a: VmInt = not_mark(kani::any());
             let b: VmInt = $d;
             let exp = match a.checked_div(b) {
                 Some(r) => Expect { frame: Some(pad(&[s, V::I(r)])) },
@@ -511,8 +522,8 @@ macro_rules! int_div_by {
 int_div_by!(c01_step_DivideInt_by_m1, -1);
 //@ tier=quick cap=900 mem=14 funcs=ExecuteContext::execute_,binop_int,binop bound=dividend_any_i64;divisor_0
 int_div_by!(c01_step_DivideInt_by_0, 0);
-//@ tier=quick cap=900 mem=14 funcs=ExecuteContext::execute_,binop_int,binop bound=dividend_any_i64;divisor_7
-int_div_by!(c01_step_DivideInt_by_7, 7);
+//@ tier=quick cap=900 mem=14 funcs=ExecuteContext::execute_,binop_int,binop bound=dividend_any_i64;divisor_2
+int_div_by!(c01_step_DivideInt_by_2, 2);
 
 //@ tier=thorough cap=1800 funcs=ExecuteContext::execute_,binop_int,binop bound=operands_any_i32_sign_extended;frame_of_3_slots mem=14
 step_harness!(c01_step_MultiplyInt, {
@@ -532,7 +543,7 @@ step_harness!(c01_step_MultiplyInt, {
 step_harness!(c01_step_MultiplyInt_pow2, {
     // any a, b = +-2^k: decides the overflow boundary exactly without a general multiplier
     let s = any_scalar();
-    let a: VmInt = kani::any();
+    let a: VmInt = not_mark(kani::any());
     let k: u32 = kani::any();
     kani::assume(k < 63);
     let b: VmInt = if kani::any() { 1i64 << k } else { -(1i64 << k) };
